@@ -53,7 +53,7 @@ var integer32 = []*instructionType{
 		immediate:    immTypeI,
 		// FIXME: Find a way how to represent those jump targets.
 		effects: func(i instruction) []expr.Effect {
-			target := regImmOp(binOpFunc(expr.Add), immTypeI, i, width32)
+			target := jalrTarget(i, width32)
 			// Address of following instruction.
 			following := expr.ConstFromUint(uint32(i.addr) + 4)
 			return []expr.Effect{
